@@ -26,7 +26,7 @@
    part of the model (the stream compares extract() dumps).
 
    Masters WITH .multiple scopes (Proofs/FetchDiffMScopes.v), domain D08S = D07 /\ wf_master (no nms; .multiple
-   entries inside .multiple scopes included).  Vocabulary wbS / dspS (wb / dsp plus one case):
+   entries inside .multiple scopes included).  Vocabulary wbS / dspS / reqS (wb / dsp / req plus one case):
      wbS k b       for a .multiple scope: the template copy + FULL instances (each given block-wise, recursively)
                    with pairwise different canonical texts, all different from the master's
      dspS k b db   for a .multiple scope: per instance its PARTIAL instance - the scope holding the difference
@@ -38,9 +38,13 @@
    instances with equal texts come from instances with equal texts (processed_as_str is keyed by the text of
    the PARTIAL instance in a difference run).  C08_partial_texts_needed: with an oracle that prints values
    without names the hypothesis fails and an instance is lost (not a run of the library, which prints names).
-   NOT proved here for .multiple scopes: the restore / diff-of-restored statements (vocabulary reqS and the
-   second oracle hypothesis restored_texts_ok are defined in Proofs/FetchDiffMScopes.v; the stream evaluates
-   those runs). *)
+   C08_restore_ms / C08_diff_of_restored_ms: vocabulary reqS (req plus one case: for a .multiple scope the
+   template copy + per partial instance the instance merged with the template - kept values themselves,
+   dropped ones replaced by the template's definitions, block-wise), under the second oracle hypothesis
+   restored_texts_ok m (for the .multiple scopes of m): the restored instance has the canonical text of the
+   instance it restores (in a merging run processed_as_str is keyed by the text of the RESTORED instance).
+   Both hypotheses are true of the library's printing as long as equal canonical texts of definitions mean
+   equal values. *)
 From Coq Require Import List Ascii String Bool Arith ZArith.
 From Phil Require Import Base Tree Vars Choice Fetch FetchBasics FetchShape FetchDisabled FetchExamples
   FetchIdemLists FetchIdemBase FetchIdem FetchIdemCopy FetchIdemExamples FetchDiffBase FetchDiff FetchDiffCycle FetchDiffExamples FetchDiffMScopes VarsDiffText.
@@ -119,6 +123,26 @@ Theorem C08_defaults_empty_ms : forall env canon, (forall k, canon k (Some k) = 
 Proof. exact defaults_empty_ms. Qed.
 Print Assumptions C08_defaults_empty_ms.
 
+(* merging D back: block-wise; a .multiple scope contributes its template copy and, per partial instance,
+   the instance restored from it (reqS, QRS k x rb = reqS k (fst x) (snd x) rb) *)
+Theorem C08_restore_ms : forall env canon, (forall k, canon k (Some k) = canon k None) ->
+  forall m srcs w d r, D08S env canon m -> partial_texts_ok env canon m -> restored_texts_ok env canon m ->
+  srcs_have_dollar srcs = false ->
+  fetch env canon false m srcs = Ok w -> fetch env canon true m [w] = Ok d -> fetch env canon false m [d] = Ok r ->
+  exists xs rbs, w = List.concat (map fst xs) /\ d = List.concat (map snd xs) /\ r = List.concat rbs /\
+                 Bl2 (QRS env canon) (entries m) xs rbs.
+Proof. exact restore_ms. Qed.
+Print Assumptions C08_restore_ms.
+
+(* the difference of a difference-restored W is D again *)
+Theorem C08_diff_of_restored_ms : forall env canon, (forall k, canon k (Some k) = canon k None) ->
+  forall m srcs w d r d2, D08S env canon m -> partial_texts_ok env canon m -> restored_texts_ok env canon m ->
+  srcs_have_dollar srcs = false ->
+  fetch env canon false m srcs = Ok w -> fetch env canon true m [w] = Ok d -> fetch env canon false m [d] = Ok r ->
+  fetch env canon true m [r] = Ok d2 -> d2 = d.
+Proof. exact diff_of_restored_ms. Qed.
+Print Assumptions C08_diff_of_restored_ms.
+
 (* the hypothesis of C08_diff_spec_ms cannot be dropped: oracle ex_canon (values without names), master
    s .multiple { a = 1  b = 2 }, source  s { a = 3 }  s { b = 3 }: W = template + two instances, the partial
    instances s { a = 3 } and s { b = 3 } have the same text "3", D keeps one, R holds one instance *)
@@ -136,12 +160,22 @@ Print Assumptions C08_partial_texts_needed.
    return; D is the one instance s { a = 2 }, the restored parameters are W itself *)
 Example C08_domain_ms_satisfiable :
   (forall k, ncanon k (Some k) = ncanon k None) /\ D08S ex_env ncanon ms_master /\
-  partial_texts_ok ex_env ncanon ms_master /\ srcs_have_dollar [ms_source] = false /\
+  partial_texts_ok ex_env ncanon ms_master /\ restored_texts_ok ex_env ncanon ms_master /\
+  srcs_have_dollar [ms_source] = false /\
   fetch ex_env ncanon false ms_master [ms_source] = Ok ms_w /\
   fetch ex_env ncanon true ms_master [ms_w] = Ok ms_d /\
   fetch ex_env ncanon false ms_master [ms_d] = Ok ms_w /\
   fetch ex_env ncanon true ms_master [ms_w] = Ok ms_d.
-Proof. exact (conj ncanon_self (conj ms_D08S (conj ms_partial_ok (conj eq_refl ms_runs)))). Qed.
+Proof. exact (conj ncanon_self (conj ms_D08S (conj ms_partial_ok (conj ms_restored_ok (conj eq_refl ms_runs))))). Qed.
+
+(* the cycle on a two-leaf .multiple scope (runs only; oracle ncanon):  x = 0   s .multiple { a = 1  b = 2 },
+   source  s { a = 3 }  s { a = 1 }  s { b = 5 }  s { a = 3 }:  D holds the partial instances, R = W, D2 = D *)
+Example C08_two_leaf_cycle : exists w d,
+  fetch ex_env ncanon false m2_master [m2_source] = Ok w /\ fetch ex_env ncanon true m2_master [w] = Ok d /\
+  fetch ex_env ncanon false m2_master [d] = Ok w /\ fetch ex_env ncanon true m2_master [w] = Ok d /\
+  map ntext w = [s_ "x=0;"; s_ "s{a=1;b=2;}"; s_ "s{a=1;b=5;}"; s_ "s{a=3;b=2;}"] /\
+  map ntext d = [s_ "s{b=5;}"; s_ "s{a=3;}"].
+Proof. exact m2_runs. Qed.
 
 (* ---------------------------------------------------------------- undefined $variables stay textual *)
 (* The clause "undefined $variables stay textual" of fetch_diff: the text written for an unresolved
